@@ -51,7 +51,7 @@ func (r *vfRecReq) NewResource(rid string, params interface{}, cb func(result in
 	r.verb, r.rid, r.cbCall = "new", rid, cb
 }
 func (r *vfRecReq) SetVersion(protocol string) (string, error) { return "1.2.3", nil }
-func (r *vfRecReq) ProtocolVersion() int                      { return 1002003 }
+func (r *vfRecReq) ProtocolVersion() int                       { return 1002003 }
 
 func vfTokOK(c byte) bool {
 	return c >= 33 && c <= 126 && c != '*' && c != '>' && c != '?' && c != '.'
